@@ -99,7 +99,8 @@ def run(seed, local_max, peer_max, specs=None, timeout=3600, delivery='random', 
     try:
         world.watch_sends()
         if fine:
-            pre = preempt.Preempter(world.sim, prob=0.4, funcs=set(fine))
+            pre = preempt.Preempter(world.sim, prob=0.4, funcs=set(fine),
+                                    files=('dsutils.py',))
             pre.install()
         neg = peer_max if (peer_max and (not local_max or peer_max < local_max)) else local_max
         all_specs = []
